@@ -36,9 +36,10 @@ INTERNAL_WORK = {
     ("renormalizer/tn/gs.py", "optimize_2site", "ttns"): "helper of optimize_ttns",
     ("renormalizer/mps/gs.py", "single_sweep", "mps"): "sweep helper of optimize_mps ('The MPS is overwritten')",
 }
-# one narrow suppression keyed by origin (function, normalised statement); the key changes with the statement, so an edit is re-triaged
+# one narrow suppression keyed by origin (function, statement with local names abstracted to _1, _2, ...); the key changes with the statement's
+# structure, so an edit is re-triaged, but a mere renaming of locals is not
 ORIGIN_SUPPRESS = {
-    "Mps._evolve_prop_and_compress: term.scale((-1j * evolve_dt) ** idx * propagation_c[idx], inplace=True)":
+    "Mps._evolve_prop_and_compress: _1.scale((-1j * evolve_dt) ** _2 * _3[_2], inplace=True)":
         "termlist[0] is self and is scaled by (-i dt)**0 * c[0] with c[0] = 1/0! = 1 (TaylorExpansion.coeff, proved by C19's `taylor` rule); "
         "MatrixProduct.scale takes the real branch for 1+0j, so the represented state of self is unchanged; every other term is a fresh contract() result",
 }
@@ -130,9 +131,9 @@ def run(chk):
     chk.table("origin_suppressions", ORIGIN_SUPPRESS)
     for okey, items in sorted(by_origin.items()):
         why = items[0][2]
-        if okey in ORIGIN_SUPPRESS:
+        if why.akey() in ORIGIN_SUPPRESS:
             chk.ob("effect-bound", okey + " [suppressed]", True, f"{why.rel}::{why.qual}", "VALUE (suppressed with reason)", "<= GAUGE", line=why.line,
-                   detail=ORIGIN_SUPPRESS[okey])
+                   detail=ORIGIN_SUPPRESS[why.akey()])
             continue
         via = sorted({k for k, _, _ in items})
         chk.ob("effect-bound", okey, False, f"{why.rel}::{why.qual}", "VALUE", "<= GAUGE", line=why.line,
@@ -371,8 +372,10 @@ def copy_complete(chk, src):
     tmc = src.func("renormalizer/tn/tree.py", "TTNS.metacopy")
     tinit = init_attrs(src, src.cls("renormalizer/tn/tree.py", "TTNS"))
     tma = {}
+    from ..src import returned_names
+    res_names = returned_names(tmc.node)
     for n in ast.walk(tmc.node):
-        if isinstance(n, ast.Assign) and isinstance(n.targets[0], ast.Attribute) and unparse(n.targets[0].value) == "new":
+        if isinstance(n, ast.Assign) and isinstance(n.targets[0], ast.Attribute) and unparse(n.targets[0].value) in res_names:
             tma[n.targets[0].attr] = n.value
     for a in ("coeff", "optimize_config", "evolve_config", "compress_config"):
         if a not in tinit:
